@@ -397,6 +397,15 @@ def first_match_loop(fn: ast.FunctionDef, make_vocab) -> tuple[str, str]:
     return tr.boolean(test.test), test.body[0].value.attr, seq
 
 
+def located_test(fn: ast.FunctionDef, tr: Tr, marker: str) -> str:
+    """the test of the one `if … : raise` whose source mentions `marker`, wherever it is nested in the function"""
+    found = [n for n in ast.walk(fn) if isinstance(n, ast.If) and marker in ast.unparse(n.test) and not n.orelse
+             and len(n.body) >= 1 and isinstance(n.body[-1], ast.Raise)]
+    if len(found) != 1:
+        raise NotTranslatable(f"{len(found)} raising `if` statements mention {marker}")
+    return tr.boolean(found[0].test)
+
+
 def _dispatch_to_lean(chain: list) -> str:
     lines = []
     for cond, leaf in chain[:-1]:
@@ -447,6 +456,10 @@ SPECS = [
          vocab={"variable": ("v", "varname"), "period": ("p", "pval"), "self.max_spiral_loops": ("msl", "nat")},
          params="{P : Type} [DecidableEq P] (below : List (Nat × P)) (v : Nat) (p : P) (msl : Nat)", typ="Nat",
          fallback="if (v, p) ∈ below then 1 else if msl ≤ (below.filter (fun k => k.1 = v)).length then 2 else 0"),
+    dict(name="period_text_finer_refused", file="openfisca_core/periods/helpers.py", cls=None, func="period", kind="located",
+         marker="unit_weight(period.unit)", vocab={"period.unit": ("base", "unit"), "unit": ("u", "unit")},
+         params="(u base : DUnit)", typ="Bool",
+         fallback="(decide (unitWeight base > unitWeight u) || (u == DUnit.week && base == DUnit.month))"),
     dict(name="holderSet_raises", file=HOLDER, cls="Holder", func="_set", kind="guards", stop_at="should_store_on_disk",
          vocab=V_HOLDER, params="(du pu : DUnit) (sz : Int)", skip=["value = self._to_array(value)"],
          fallback="OFCore.Tie.holderSetGuards du pu sz"),
@@ -534,6 +547,10 @@ def translate(repo: str, module: str = "GeneratedGuards") -> tuple[str, dict]:
                 body = _chain_to_lean(chain, sp.get("raise_only", False))
                 typ = "Bool"
                 doc = f"{len(chain)} guards of `{sp['cls']}.{sp['func']}` ({sp['file']}), first match decides; `true` = raises"
+            elif sp["kind"] == "located":
+                body = "  " + located_test(fn, tr, sp["marker"])
+                typ = sp["typ"]
+                doc = f"the test of the `if … raise` of `{sp['func']}` ({sp['file']}) that mentions `{sp['marker']}`"
             elif sp["kind"] == "classes":
                 body = _classes_to_lean(fn, Tr(dict(sp["vocab"])), sp["classes"])
                 typ = sp["typ"]
